@@ -19,7 +19,7 @@ import (
 //	containers: (R/16)%4 = 2, 3    one / two extra pointer levels around the value
 //	            typed maps, slices and arrays whenever the built children share one Go type
 //	            (map[string]map[string]interface{}, []*T, [N][]interface{} ...)
-//	            struct tags for every key that can be written in a tag (dotted keys, digits, blanks)
+//	            struct tags for every key that can be written in a tag (anything but the empty key and keys with a comma)
 //	            interface-keyed maps whose keys are values of a named string type
 //	primitives: R%4 = 2            a narrower Go kind holding the same value (int8, uint16, int, float32 ...)
 //	            R%4 = 3            a named type of the same kind
@@ -33,7 +33,8 @@ import (
 // pointers, an interface{}-typed field, a struct nested in an inline struct).
 // Every field is tagged under all of tagNames: the tag the options of the
 // case select (primary) names the keys of the tree, the others carry names
-// made by altTag.
+// made by altTag. A field whose key is one lower-case letter may have no
+// primary tag and the upper-cased key as its Go name instead (goFieldName).
 type builder struct {
 	opts     []ucfg.Option
 	used     map[string]int
@@ -174,7 +175,7 @@ const nSchemes = 6
 //	0 suffix        key + "_" + tag name
 //	1 rotate        the key of the next field
 //	2 ignore-first  field 0 has the option ignore, the others get a suffix
-//	3 unnamed-first field 0 has no name (the lower-cased Go field name f0 applies), the others keep their keys
+//	3 unnamed-first field 0 has no name (the lower-cased Go field name applies), the others keep their keys
 //	4 flip          keys kept; inline members are named m<run> instead of being inlined
 //	5 prefix        "p" + separator of the case + key
 func altTag(scheme, j, i int, keys []string, sep string) string {
@@ -198,12 +199,36 @@ func altTag(scheme, j, i int, keys []string, sep string) string {
 	return keys[i] + "_" + tagNames[j]
 }
 
-func (b *builder) fieldTag(i int, keys []string) reflect.StructTag {
+// goFieldName is the Go name of the field for key i. A key that is one
+// lower-case letter and occurs once in its object can do without a tag: the
+// name of a field without tag is its lower-cased Go name (every second such
+// field is written that way, under the primary tag only).
+func goFieldName(t *gen.Tree, i int) string {
+	k := t.Keys[i]
+	if len(k) == 1 && k[0] >= 'a' && k[0] <= 'z' && (t.R>>4+i)%2 == 0 {
+		n := 0
+		for _, k2 := range t.Keys {
+			if k2 == k {
+				n++
+			}
+		}
+		if n == 1 {
+			return strings.ToUpper(k)
+		}
+	}
+	return fmt.Sprintf("F%d", i)
+}
+
+func (b *builder) fieldTag(t *gen.Tree, i int) reflect.StructTag {
+	keys := t.Keys
 	var p []string
 	for j, name := range tagNames {
 		text := keys[i]
 		if j != b.primary {
 			text = altTag(b.scheme, j, i, keys, b.sep)
+		} else if goFieldName(t, i) == strings.ToUpper(text) {
+			b.use("struct field without tag")
+			continue
 		}
 		p = append(p, name+":"+strconv.Quote(text))
 	}
@@ -254,7 +279,7 @@ func viewUnder(t *gen.Tree, primary, j, scheme int, sep string) *gen.Tree {
 			return
 		}
 		if name == "" {
-			name = fmt.Sprintf("f%d", i)
+			name = strings.ToLower(goFieldName(t, i))
 		}
 		to.Keys, to.Vals = append(to.Keys, name), append(to.Vals, vals[i])
 	}
@@ -551,7 +576,7 @@ func (b *builder) structOf(t *gen.Tree, vals []interface{}) interface{} {
 			if vals[i] != nil && typed {
 				ft = reflect.TypeOf(vals[i])
 			}
-			fs = append(fs, reflect.StructField{Name: fmt.Sprintf("F%d", i), Type: ft, Tag: b.fieldTag(i, t.Keys)})
+			fs = append(fs, reflect.StructField{Name: goFieldName(t, i), Type: ft, Tag: b.fieldTag(t, i)})
 		}
 		return fs
 	}
